@@ -220,7 +220,12 @@ def evalCase (prop : String) (c : CaseIn) : Verdict := Id.run do
       sps := sps.set! h sp1
       let ts := monStep cfg taints[h]! st sp op r.ora
       taints := taints.set! h ts
+      -- C07 compares the view *right after* a crash: any later mutation ends that window
+      let observer := match op with
+        | .dump _ => true | .stat _ => true | .exists _ => true | .readDir _ => true | .readFile _ => true
+        | _ => false
       if op == .crash then crashed := crashed.set! h true
+      else if !observer then crashed := crashed.set! h false
       let ms := renderObs mo
       if v.kOk && ms != r.obs then
         v := { v with kOk := false, kLine := r.line, kDetail := s!"model={ms} impl={r.obs}" }
@@ -237,6 +242,9 @@ def evalCase (prop : String) (c : CaseIn) : Verdict := Id.run do
             | .dump _ => if crashed[h]! then dumpDiff true sp1 ss r.obs else []
             | _ => []
         if !bad.isEmpty then
+          -- C07: growing past a pending SetLen (finding 1) is a live-view defect only; it never
+          -- reaches the durable image, so it explains nothing there
+          let ts := if prop == "C07" then ts.filter (fun t => t.1 != 1) else ts
           let pat := match explain ts bad with
             | some n => findingId prop n
             | none => "none"
